@@ -2,6 +2,7 @@ package enterleavesensorpb
 
 import (
 	"context"
+	"math"
 	"time"
 
 	"google.golang.org/protobuf/proto"
@@ -42,7 +43,8 @@ func (m *Model) CreateEnterLeaveEvent(event *traits.EnterLeaveEvent, opts ...res
 				// the caller supplied a new total, use it
 				return val
 			}
-			if inc {
+			if inc && cv < math.MaxInt32 {
+				// saturate: a total must not wrap around to a negative count
 				cv++
 			}
 			return &cv
